@@ -576,3 +576,150 @@ Section Local.
       apply Hw in E3 as [H5 H6]; [|reflexivity|reflexivity]. split; [exact H5|exact H6].
   Qed.
 End Local.
+
+Section Local2.
+  Variable d : dcop.
+  Variable stop : Z.
+  Variable n : node.
+
+  Lemma handle_value_props (wfg : mst -> res) (Q : mst -> Prop) s src v s' o e :
+    (forall t t' o' e', m_pv t = m_pv s -> m_pg t = m_pg s -> wfg t = (t', o', e') -> no_err e' /\ Q t') ->
+    Q (set_nv s (dict_set Z.eqb src v (m_nv s))) ->
+    handle_value d n wfg s src v = (s', o, e) -> no_err e /\ Q s'.
+  Proof.
+    intros Hw Hq. unfold handle_value.
+    destruct (zlen (m_nv (set_nv s (dict_set Z.eqb src v (m_nv s)))) =? zlen (nbrs d n)).
+    2:{ unfold ret. intros H. inversion H; subst. split; [apply no_err_nil|exact Hq]. }
+    repeat match goal with |- context [let '(a, b) := ?X in _] => destruct X as [? ?] end.
+    unfold andthen.
+    match goal with |- context [wfg ?t] => destruct (wfg t) as [[s3 o3] e3] eqn:E3 end.
+    intros H. inversion H; subst. apply Hw in E3 as [H5 H6]; [|reflexivity|reflexivity].
+    split; [exact H5|exact H6].
+  Qed.
+
+  Lemma fold_andthen_props (h : mst -> Z -> Z -> res) (Q : mst -> Prop) :
+    (forall s a b s' o e, Q s -> h s a b = (s', o, e) -> no_err e /\ Q s') ->
+    forall (l : list (Z * Z)) s0 o0 e0, no_err e0 -> Q s0 ->
+    forall s' o e, fold_left (fun acc m => andthen acc (fun t => h t (fst m) (snd m))) l (s0, o0, e0) = (s', o, e) ->
+    no_err e /\ Q s'.
+  Proof.
+    intros Hh. induction l as [|m l IH]; simpl; intros s0 o0 e0 He Hq s' o e H.
+    - inversion H; subst. auto.
+    - destruct (h s0 (fst m) (snd m)) as [[s1 o1] e1] eqn:E1. apply Hh in E1 as [H1 H2]; [|exact Hq].
+      eapply IH; [| |exact H]; [apply no_err_app; auto|exact H2].
+  Qed.
+
+  Lemma hg1_props s src g s' o e : m_pv s = [] -> hg1 d stop n s src g = (s', o, e) -> no_err e /\ m_pv s' = [].
+  Proof.
+    intros Hpv. unfold hg1. apply (handle_gain_props d n _ (fun t => m_pv t = [])); [|exact Hpv].
+    intros t t' o' e' Ht _ Hw. rewrite Hpv in Ht. apply wfv2_props in Hw; [tauto|exact Ht].
+  Qed.
+
+  Lemma hv1_props s src v s' o e : m_pg s = [] -> hv1 d n s src v = (s', o, e) -> no_err e /\ m_pg s' = [].
+  Proof.
+    intros Hpg. unfold hv1. apply (handle_value_props _ (fun t => m_pg t = [])); [|exact Hpg].
+    intros t t' o' e' _ Ht Hw. rewrite Hpg in Ht. apply wfg2_props in Hw; [tauto|exact Ht].
+  Qed.
+
+  Lemma wfg1_props s s' o e : m_pv s = [] -> wfg1 d stop n s = (s', o, e) -> no_err e /\ m_pv s' = [] /\ m_pg s' = [].
+  Proof.
+    intros Hpv. unfold wfg1, wfg_gen, andthen, ret.
+    match goal with |- context [fold_left ?f ?l ?i] => destruct (fold_left f l i) as [[s1 o1] e1] eqn:E end.
+    eapply (fold_andthen_props (hg1 d stop n) (fun t => m_pv t = [])) in E;
+      [|intros; eapply hg1_props; eauto|apply no_err_nil|exact Hpv].
+    destruct E as [H1 H2]. intros H. inversion H; subst. simpl. rewrite app_nil_r. auto.
+  Qed.
+
+  Lemma wfv1_props s s' o e : m_pg s = [] -> wfv1 d stop n s = (s', o, e) -> no_err e /\ m_pv s' = [] /\ m_pg s' = [].
+  Proof.
+    intros Hpg. unfold wfv1, wfv_gen, andthen, ret.
+    destruct (send_value d stop n (set_state s SValues)) as [[s0 o0] e0] eqn:E0.
+    apply send_value_props in E0 as (A1 & A2 & A3 & A4). simpl in A3.
+    match goal with |- context [fold_left ?f ?l ?i] => destruct (fold_left f l i) as [[s1 o1] e1] eqn:E end.
+    eapply (fold_andthen_props (hv1 d n) (fun t => m_pg t = [])) in E;
+      [|intros; eapply hv1_props; eauto|exact A1|congruence].
+    destruct E as [H1 H2]. intros H. inversion H; subst. simpl. rewrite app_nil_r. auto.
+  Qed.
+
+  Lemma linv_of_empty s : m_pv s = [] -> m_pg s = [] -> linv s.
+  Proof. unfold linv. intros. destruct (m_state s); auto. Qed.
+
+  Lemma mgm_recv_linv s src m s' o e : linv s -> mgm_recv d stop n s src m = (s', o, e) -> no_err e /\ linv s'.
+  Proof.
+    intros L. unfold mgm_recv. destruct m as [v|g].
+    - destruct (m_state s) eqn:St.
+      + unfold ret. intros H. inversion H; subst. split; [apply no_err_nil|]. unfold linv. simpl. now rewrite St.
+      + unfold hv0. apply (handle_value_props _ linv).
+        * intros t t' o' e' Ht _ Hw. unfold linv in L. rewrite St in L. rewrite L in Ht.
+          apply wfg1_props in Hw; [|exact Ht]. destruct Hw as (H1 & H2 & H3). split; [exact H1|now apply linv_of_empty].
+        * unfold linv in *. simpl. rewrite St in *. exact L.
+      + unfold ret. intros H. inversion H; subst. split; [apply no_err_nil|]. unfold linv in *. simpl. now rewrite St in *.
+    - destruct (m_state s) eqn:St.
+      + unfold ret. intros H. inversion H; subst. split; [apply no_err_nil|]. unfold linv. simpl. now rewrite St.
+      + unfold ret. intros H. inversion H; subst. split; [apply no_err_nil|]. unfold linv in *. simpl. now rewrite St in *.
+      + unfold hg0. apply (handle_gain_props d n _ linv).
+        * intros t t' o' e' _ Ht Hw. unfold linv in L. rewrite St in L. rewrite L in Ht.
+          apply wfv1_props in Hw; [|exact Ht]. destruct Hw as (H1 & H2 & H3). split; [exact H1|now apply linv_of_empty].
+        * unfold linv in *. simpl. rewrite St in *. exact L.
+  Qed.
+
+  Lemma mgm_start_linv orc s' o e : mgm_start d stop n (mgm_init orc n) = (s', o, e) -> no_err e /\ linv s'.
+  Proof.
+    unfold mgm_start. destruct (nbrs d n) as [|y r].
+    - destruct (isolated_choice d n) as [v c]. unfold andthen. simpl. intros H. inversion H; subst. split.
+      + intros a b Hin. repeat (destruct Hin as [Hin|Hin]; try discriminate). auto.
+      + unfold linv. simpl. exact I.
+    - repeat match goal with |- context [let '(a, b) := ?X in _] => destruct X as [? ?] end.
+      unfold andthen.
+      match goal with |- context [value_selection n ?t ?v ?c] => destruct (value_selection n t v c) as [[s1 o1] e1] eqn:E1 end.
+      pose proof E1 as E1'. apply value_selection_props in E1 as (H1 & H2 & H3 & H4).
+      destruct (wfv1 d stop n s1) as [[s2 o2] e2] eqn:E2. intros H. inversion H; subst.
+      apply wfv1_props in E2; [|rewrite H3; reflexivity]. destruct E2 as (A1 & A2 & A3).
+      split; [apply no_err_app; auto|now apply linv_of_empty].
+  Qed.
+End Local2.
+
+(* lifted to every schedule of the asynchronous network *)
+Section NetLift.
+  Variable d : dcop.
+  Variable stop : Z.
+  Variable orc : node -> list Z.
+  Let P := mgm_proto d stop orc.
+
+  Definition cinv (cf : config mst mmsg) : Prop :=
+    forall n, if w_running (nodes cf n) then linv (w_st (nodes cf n)) else w_st (nodes cf n) = mgm_init orc n.
+
+  Lemma step_cinv cf a : cinv cf -> cinv (fst (step P cf a)) /\ no_err (snd (step P cf a)).
+  Proof.
+    intros C. destruct a as [k|s t]; simpl.
+    - pose proof (C k) as Ck. destruct (w_running (nodes cf k)) eqn:R; [split; [exact C|apply no_err_nil]|].
+      rewrite Ck. destruct (mgm_start d stop k (mgm_init orc k)) as [[st' outs] evs] eqn:E. simpl.
+      apply mgm_start_linv in E as [E1 E2]. split; [|exact E1].
+      intros m. simpl. unfold upd_node. destruct (m =? k) eqn:Em; [simpl; exact E2|apply C].
+    - destruct (chan cf s t) as [|m q] eqn:Ch; [split; [exact C|apply no_err_nil]|].
+      pose proof (C t) as Ct. destruct (w_running (nodes cf t)) eqn:R.
+      + destruct (mgm_recv d stop t (w_st (nodes cf t)) s m) as [[st' outs] evs] eqn:E. simpl.
+        apply mgm_recv_linv in E as [E1 E2]; [|exact Ct]. split; [|exact E1].
+        intros k. simpl. unfold upd_node. destruct (k =? t) eqn:Ek; [simpl; exact E2|apply C].
+      + simpl. split; [|apply no_err_nil].
+        intros k. simpl. unfold upd_node. destruct (k =? t) eqn:Ek; [apply Z.eqb_eq in Ek; subst k; simpl; exact Ct|apply C].
+  Qed.
+
+  Lemma exec_cinv sched : forall cf, cinv cf -> cinv (fst (exec P cf sched)) /\ no_err (snd (exec P cf sched)).
+  Proof.
+    induction sched as [|a r IH]; simpl; intros cf C; [split; [exact C|apply no_err_nil]|].
+    destruct (step_cinv cf a C) as [C1 N1]. destruct (step P cf a) as [cf1 e1]. simpl in *.
+    destruct (IH cf1 C1) as [C2 N2]. destruct (exec P cf1 r) as [cf2 e2]. simpl in *.
+    split; [exact C2|apply no_err_app; auto].
+  Qed.
+
+  (* C07 (safety, MGM): under EVERY schedule of starts and FIFO deliveries the handlers never reach
+     the re-entrant processing of a postponed list (the only error branch of the model), and
+     every started computation keeps its postponed lists consistent with its state *)
+  Theorem mgm_no_reentrancy_lemma sched :
+    no_err (snd (run P sched)) /\ cinv (fst (run P sched)).
+  Proof.
+    unfold run. destruct (exec_cinv sched (init P)) as [C N]; [|split; assumption].
+    intros n. simpl. reflexivity.
+  Qed.
+End NetLift.
